@@ -20,7 +20,8 @@ CHECKS["C03"] = dict(
     text="For every LHS-shape x some/all x operator x RHS-class combination (exhaustive over the listed classes) and for random "
          "clauses on random documents, 6-9 spellings of the negated/un-negated clause are evaluated together by the real "
          "evaluator; the monitor asserts prefix-not == operator-not (all spellings), double negation == original, flip on "
-         "single comparable values, order inverses and the named-rule negation table.",
+         "single comparable values, order inverses, the named-rule negation table and the same table for negated parameterised calls "
+         "(`not p(args)` in rule bodies, when conditions, when blocks and `or` lines, with and without custom message).",
     note="Trusts the generator's model-based decision that a query selects exactly one comparable value (plain key paths only). "
          "Needs no reference semantics.",
     ref="DESIGN.md §6 P-C03")
@@ -68,7 +69,7 @@ CHECKS["C06"] = dict(
     technique="runtime monitoring: real-process exit-status monitor with a scenario classifier as oracle",
     text="The shipped binary is run as real processes on scenarios built from finite classes (1..3 rules files from 7 kinds x 1..3 data "
          "files from 5 kinds, every position, x 12 invocation modes incl. payload, stdin, directories, structured json/yaml/junit/sarif; "
-         "`test` scenarios x 4 formats x 2 layouts); the exit status must fall in the class a 30-line classifier derives from what the "
+         "`test` scenarios x 4 formats x 3 layouts - files, directory, directory with 2-3 rules files and the scenario file at each position); the exit status must fall in the class a 30-line classifier derives from what the "
          "generator built (per-pair verdicts confirmed by singleton library runs); in-process results must agree with process exits.",
     note="Trusts singleton run_checks verdicts for pair classification and PyYAML for deciding that a 'malformed' sample really is malformed. "
          "Crash exits are inconclusive here (C08 owns them).",
@@ -76,9 +77,10 @@ CHECKS["C06"] = dict(
 
 CHECKS["C05"] = dict(
     technique="runtime monitoring: repeated-execution differential monitor (fresh processes, rotated environments, in-process repetition)",
-    text="18 command/output modes (validate structured json/yaml/sarif/junit, plain json/yaml, print-json, console variants, parse-tree, test in "
-         "4 renderings, rulegen) are each run 5 (quick) / 8 (thorough) times as fresh processes of the shipped binary - fresh hash seeds - under "
-         "rotated TZ/LANG/HOME/COLUMNS/NO_COLOR/RUST_BACKTRACE/cwd/pipe-vs-file, and payload modes 5 times inside one process; exit codes must be "
+    text="22 command/output modes (validate structured json/yaml/sarif/junit, plain json/yaml, print-json, console variants, parse-tree, test in "
+         "4 renderings, rulegen, and 4 modes of function rules: parse_epoch over 12 timestamp spellings incl. zone-less and DST-gap ones, case mapping, "
+         "conversions, join/regex_replace) are each run 5 (quick) / 8 (thorough) times as fresh processes of the shipped binary - fresh hash seeds - under "
+         "rotated TZ (tzdata names and POSIX strings)/LANG/HOME/COLUMNS/NO_COLOR/RUST_BACKTRACE/cwd/pipe-vs-file, and payload modes 5 times inside one process; exit codes must be "
          "equal, structured output byte-identical (elapsed-time fields masked), console output equal as a multiset of lines.",
     note="A random ordering of k items escapes N runs with probability (1/k!)^(N-1); inputs have >=3 rules/files per collection. Environment rotation is a sample, not all environments.",
     ref="DESIGN.md §6 P-C05")
@@ -88,7 +90,8 @@ CHECKS["C09"] = dict(
     text="Random programs with distinct rule names and a unique custom message on every clause are evaluated on random documents; the "
          "structured report (library and `validate --structured -o json`) is checked against the verbose record tree of the same "
          "evaluation: each rule in exactly the partition its status dictates, file-status rule, batch report over 1-3 rules files == union of "
-         "single reports, every reported leaf check attributable (by message) to a FAIL value check in that rule's own subtree.",
+         "single reports, every reported leaf check attributable (by message) to a FAIL value check in that rule's own subtree; records and report entries of "
+         "parameterised calls (incl. nested and message-less ones) must carry exactly the message written at that call in the rules text.",
     note="The verbose tree is the ground truth (its own consistency is C02). Reported leaves are matched by custom message; leaves without a message match any FAIL record of the rule.",
     ref="DESIGN.md §6 P-C09")
 
@@ -97,7 +100,8 @@ CHECKS["C07"] = dict(
     text="For random programs x documents the structured JSON report is the baseline and ~70 other configurations (structured yaml/sarif/junit, plain "
          "single-line/json/yaml x 7 --show-summary selections x {-, -v, -p}, data on stdin, --payload plain and structured, run_checks and the FFI "
          "function in verbose and report mode, incl. reports > 8 KiB) are parsed back by independent parsers (python json, PyYAML, xml.etree, "
-         "regex) and must agree on rule->status, file status and exit code; YAML==JSON as data, SARIF result count == failing checks, JUnit marks/counters.",
+         "regex) and must agree on rule->status, file status and exit code; YAML==JSON as data, SARIF result count == failing checks, JUnit marks/counters. Groups of 2-3 rules files x 1-3 data files go through 13 "
+         "configurations (files, payload; plain, structured) and must agree on the exit code and the per-pair verdicts.",
     note="Console reporters show only what -S selects: containment there, equality for -S all. The Lambda handler itself cannot be linked; it is covered via run_checks with its argument pattern.",
     ref="DESIGN.md §6 P-C07")
 
@@ -105,14 +109,14 @@ CHECKS["C12"] = dict(
     technique="runtime monitoring: batch-vs-singleton differential monitor with hook-observed scope lifetimes",
     text="Batches of 1-3 rules files that share variable and rule names with different definitions x 2-4 documents differing exactly in the "
          "queried keys are validated as explicit files in several orders (plain and structured), as directories with -a and -m (explicit mtimes), "
-         "as payload lists, and as multi-case `test` files; every (rules, data) pair's report must equal the report of the pair validated alone and "
+         "as payload lists, as structured junit and sarif batches (per-data-file testsuite / result units vs the stand-alone run), and as multi-case `test` files; every (rules, data) pair's report must equal the report of the pair validated alone and "
          "the exit status must be the maximum over the pairs. verif-hooks events assert one root scope per pair and no memo hit before a miss in a scope.",
     note="Reports are compared after removing file names and line/column details. In structured mode compliant/not_applicable are name sets by design.",
     ref="DESIGN.md §6 P-C12")
 
 CHECKS["C16"] = dict(
     technique="runtime monitoring: differential monitor between the `test` and `validate` front ends over enumerated expectation assignments",
-    text="Generated rules files (45% with a doubly defined rule name) x 1-4 documents x all 3^k expectation assignments (k<=3) incl. rules without "
+    text="Generated rules files (45% with a doubly defined rule name, 40% with file-level clauses = the `default` rule) x 1-4 documents x all 3^k expectation assignments (k<=3) incl. rules without "
          "expectation are run through `test` in plain/json/yaml/junit rendering and files/--dir layout; each (case, rule) outcome (met / unmet / no "
          "expectation), the evaluated statuses of unmet expectations and the exit code 0/7 must follow from the statuses `validate --print-json` "
          "assigns to that rule on the same input, and all renderings must carry the same relation.",
@@ -121,7 +125,8 @@ CHECKS["C16"] = dict(
 
 CHECKS["C17"] = dict(
     technique="runtime monitoring: differential monitor against the pre-merged document, over all -i orders and modes",
-    text="Documents are split at random into data + 1-3 parameter files (JSON/YAML, differing sizes); validating with -i in every order, in plain and "
+    text="Documents are split at random into data + 1-3 parameter files (JSON/YAML, differing sizes; flat names, the same base name in different "
+         "directories, or one directory given to -i); validating with -i in every order, in plain and "
          "structured mode, with one or two data files and in payload mode must give the verdicts and exit class of validating the pre-merged document; "
          "rules read keys by name and iterate the merged root map (`this.*`, `[ keys == | in | regex ]`); a deliberately overlapping key (param/param, "
          "data/param) must produce an error exit without a verdict - not a crash, not a silent choice - in both modes.",
@@ -130,7 +135,7 @@ CHECKS["C17"] = dict(
 
 CHECKS["C19"] = dict(
     technique="runtime monitoring: round-trip monitor (rulegen -> parse-tree -> validate on the source and on a mutated template)",
-    text="Generated CloudFormation-shaped templates (1-5 resources over 1-3 types; plain and 17 classes of odd strings, ints, bools, nested "
+    text="Generated CloudFormation-shaped templates (1-5 resources over 1-3 types; plain and 17 classes of odd strings, ints incl. 2^53+1 and i64::MIN, floats (fraction / integral / exponent), bools, nested "
          "lists/maps; repeated and distinct values; uniform and non-uniform property sets) are fed to `rulegen` as a real process (twice); unless an "
          "error is reported the output must parse to exactly one rule per resource type with properties, every rule must PASS on the source "
          "template, and the rule of a type must FAIL after one scalar property value is changed to an unseen value.",
@@ -147,12 +152,13 @@ CHECKS["C18"] = dict(
     ref="DESIGN.md §6 P-C18")
 
 CHECKS["C11"] = dict(
-    technique="runtime monitoring: model-vs-loaded differential monitor over serialisations x loaders (hooked loader probes + verdict channels)",
+    technique="runtime monitoring: model-vs-loaded differential monitor over serialisations x loaders (hooked loader probes + verdict channels); Miri on the loader in the thorough tier",
     text="Generated documents (unicode, digits-only, empty, keyword-looking strings, i64 bounds, extreme floats) are written by a position-tracking "
          "emitter as JSON compact/pretty, YAML flow and YAML block with random quoting/indent/comments; the verif-hooks loader probes dump every loaded "
          "node for the validate (libyaml) and the test/library (serde) loader and are compared type-strictly, incl. key and list order, with the model; "
          "the document must equal its own Guard literal and pass per-path type probes through validate, --payload, run_checks and test; all 21 tags x "
-         "{scalar, sequence} x 3 nestings are compared with their long form; ill-formed texts and non-string keys must be rejected by all 6 front ends.",
+         "{scalar, sequence} x 3 nestings are compared with their long form; ill-formed texts and non-string keys must be rejected by all 6 front ends. "
+         "Thorough tier: ~90 documents (hostile texts, generated serialisations, tag documents) are loaded by the libyaml loader under Miri (undefined-behaviour interpreter).",
     note="Strings that YAML or Guard would type as non-strings are always emitted quoted (spellings outside the property are not generated plain). "
          "Multi-document streams and aliases are out of the statement.",
     ref="DESIGN.md §6 P-C11")
@@ -168,14 +174,15 @@ CHECKS["C10"] = dict(
     ref="DESIGN.md §6 P-C10")
 
 CHECKS["C08"] = dict(
-    technique="runtime monitoring: crash/hang watchdog monitor over mutation and adversarial-grammar workloads, plus valgrind memcheck on the unsafe YAML loader paths",
-    text="Mutated rule texts, 28 adversarial but grammatical program shapes (filters after this/index/filter/keys, literal and function LHS, unary "
-         "operators on literals, mismatched/empty/unresolved function arguments, huge indices, self/mutual/when recursion, wrong arity, backtracking "
+    technique="runtime monitoring: crash/hang watchdog monitor over mutation and adversarial-grammar workloads, an arithmetic-overflow-checked build of the same worker, plus valgrind memcheck on the unsafe YAML loader paths",
+    text="Mutated rule texts, 33 adversarial but grammatical program shapes (filters after this/index/filter/keys, literal and function LHS, unary "
+         "operators on literals, mismatched/empty/unresolved function arguments, huge indices, self/mutual/when recursion, duplicate-name cycles, odd custom messages, wrong arity, backtracking "
          "regexes, multi-byte substrings ...), generated programs with all features on, and 24 hostile documents plus mutated ones (as data, parameter file, "
          "test spec, payload envelope) are run through validate (files, payload, structured), test, parse-tree, rulegen (real processes, non-UTF-8 files) and "
          "run_checks. The worker captures panics with file:line, the orchestrator attributes process deaths and watchdog expiries to the running job; rejected "
-         "rules files must name line and column and evaluate nothing; valgrind memcheck watches the libyaml loader, payload and FFI paths.",
-    note="Release profile. Signatures are (kind, in-repo file:line), so a new panic site is a new violation. valgrind runs with --undef-value-errors=no; Miri/ASan are not part of the registered check (see DESIGN §7).",
+         "rules files must name line and column and evaluate nothing; valgrind memcheck watches the libyaml loader, payload and FFI paths. A second worker "
+         "compiled with overflow checks runs the same front ends and, as a crash sweep, the quick workloads of C18 and C13 (thorough: also C01, C03, C10, C15, C11, C17).",
+    note="Release profile. Signatures are (kind, in-repo file:line), so a new panic site is a new violation. valgrind runs with --undef-value-errors=no; the Miri loader shard belongs to C11 thorough (DESIGN §10.1).",
     ref="DESIGN.md §6 P-C08")
 
 CHECKS["C01"] = dict(
@@ -219,7 +226,7 @@ def main():
             "guard": "cargo feature `verif-hooks` of the cfn-guard crate (off by default)",
             "enable": "the harness crate /verif/harness depends on /repo/guard with features=[\"verif-hooks\"]; every check runs `cargo +1.77.2 build --release --offline` of it against /repo's working tree",
             "baseline_off_cmd": "./gv baseline-off",
-            "source_commits": ["05e1292"],
+            "source_commits": ["05e1292", "0f6ba13"],
             "add_only": True,
         },
         "engines": [{"name": "gv", "path": "/verif/gv", "serves_properties": sorted(CHECKS),
